@@ -10,14 +10,29 @@ package hex
 //@   ensures result == 0 ==> a == b                       [C01]
 //@   ensures result == (a < b ? -1 : (a > b ? 1 : 0))     [C03 C08]
 
+// SemVer 2.0.0 section 11.4 on two identifiers (numeric identifiers are restricted to 18 digits, as in the property).
+//@ spec numericId(x string) bool = isdigits(x)
+//@ spec identCmp(x string, y string) int = (numericId(x) && numericId(y)) ? (numval(x) < numval(y) ? -1 : (numval(x) > numval(y) ? 1 : 0)) : (numericId(x) ? -1 : (numericId(y) ? 1 : (x == y ? 0 : (x < y ? -1 : 1))))
+//@ spec shortIds(p []string) bool = forall i int :: 0 <= i && i < len(p) ==> len(p[i]) > 0 && (isdigits(p[i]) ==> len(p[i]) <= 18)
+
 //@ func comparePreReleaseIdentifier
 //@   comparator id1 ~ id2                                 [C01]
+//@   ensures semver-11-4: (isdigits(id1) ==> len(id1) <= 18) && (isdigits(id2) ==> len(id2) <= 18) ==> result == identCmp(id1, id2)   [C08]
 
 //@ func comparePreRelease
 //@   comparator pr1 ~ pr2                                 [C01]
+//@   ensures both-release: len(pr1) == 0 && len(pr2) == 0 ==> result == 0                               [C03 C08]
+//@   ensures release-wins: len(pr1) == 0 && len(pr2) != 0 ==> result == 1                               [C03 C08]
+//@   ensures prerelease-loses: len(pr1) != 0 && len(pr2) == 0 ==> result == -1                          [C03 C08]
+//@   ensures first-difference: len(pr1) != 0 && len(pr2) != 0 && shortIds(pr1) && shortIds(pr2) ==> (forall k int :: 0 <= k && k < len(pr1) && k < len(pr2) && (forall j int :: 0 <= j && j < k ==> identCmp(pr1[j], pr2[j]) == 0) && identCmp(pr1[k], pr2[k]) != 0 ==> result == identCmp(pr1[k], pr2[k]))   [C08]
+//@   ensures longer-wins: len(pr1) != 0 && len(pr2) != 0 && shortIds(pr1) && shortIds(pr2) && (forall j int :: 0 <= j && j < len(pr1) && j < len(pr2) ==> identCmp(pr1[j], pr2[j]) == 0) ==> result == (len(pr1) < len(pr2) ? -1 : (len(pr1) > len(pr2) ? 1 : 0))   [C08]
 
 //@ func (*Version).Compare
 //@   comparator v ~ other                                 [C01]
+//@   ensures major: v.major != other.major ==> result == (v.major < other.major ? -1 : 1)                                             [C03 C08]
+//@   ensures minor: v.major == other.major && v.minor != other.minor ==> result == (v.minor < other.minor ? -1 : 1)                   [C03 C08]
+//@   ensures patch: v.major == other.major && v.minor == other.minor && v.patch != other.patch ==> result == (v.patch < other.patch ? -1 : 1)   [C03 C08]
+//@   ensures prerelease: v.major == other.major && v.minor == other.minor && v.patch == other.patch ==> result == comparePreRelease(v.preRelease, other.preRelease)   [C03 C08]   // build metadata is not consulted
 
 // ---- constructors: value xor error (C06); the fact is structural (untagged) because callers rely on it
 
